@@ -3,6 +3,7 @@
 Every rule has a fixed meaning; nothing else may change executable tokens. The firing counts are
 written to the evidence file on every run.
 """
+import re
 from rsscan import Tok, tokenize, match_close, ScanError, OPEN
 
 def _mk(texts, like, first_pre=None):
@@ -631,4 +632,55 @@ def R_slicepat(toks):
                         new = ([t] + _mk([x, "=", "if"], t, " ") + glue(_mk(cond, t, " ")) + glue(_mk(["{", "&", E, "[", "1", ".", ".", "]", "}", "else"], t, " ")) + blk)
                         out[i:be+1] = new; n += 1; i += len(new); continue
         i += 1
+    return out, n
+
+
+LOG_MACROS = ("trace", "debug", "info", "warn", "error")
+
+def R_logargs(toks):
+    """a `tracing` event macro statement `debug!(…);` (also trace!/info!/warn!/error!) becomes one statement
+    `crate::log_value(&(EXPR));` per value it records: `?e`, `%e`, `name = e`, `name = ?e`, a bare field shorthand `e`, and every
+    `{ident}` captured inside the message literal; `target: …` and the message text itself are dropped. What is kept is exactly
+    the set of expressions whose values reach the log record, which is what the contract of `log_value` speaks about."""
+    out = []; n = 0; i = 0
+    while i < len(toks):
+        t = toks[i]
+        if (t.kind == "ident" and t.text in LOG_MACROS and i + 2 < len(toks) and toks[i+1].text == "!" and toks[i+2].text == "("
+                and (i == 0 or toks[i-1].text in (";", "{", "}"))):
+            e = match_close(toks, i + 2)
+            if e + 1 < len(toks) and toks[e+1].text == ";":
+                # split the arguments at depth-0 commas
+                args = []; cur = []; k = i + 3
+                while k < e:
+                    u = toks[k]
+                    if u.kind == "punct" and u.text in OPEN:
+                        m = match_close(toks, k); cur.extend(toks[k:m+1]); k = m + 1; continue
+                    if u.text == ",": args.append(cur); cur = []; k += 1; continue
+                    cur.append(u); k += 1
+                if cur: args.append(cur)
+                exprs = []
+                for a in args:
+                    if not a: continue
+                    if a[0].kind == "ident" and a[0].text in ("target", "parent", "name") and len(a) > 1 and a[1].text == ":": continue
+                    # name = value  (name may be dotted)
+                    eq = next((j for j, x in enumerate(a) if x.text == "=" and not (j + 1 < len(a) and a[j+1].text == "=") and not (j > 0 and a[j-1].text in ("=", "!", "<", ">"))), None)
+                    if eq is not None: a = a[eq+1:]
+                    if a and a[0].text in ("?", "%"): a = a[1:]
+                    if not a: continue
+                    if len(a) == 1 and a[0].kind == "str":
+                        for m in re.finditer(r"\{([A-Za-z_]\w*)(?::[^}]*)?\}", a[0].text):
+                            exprs.append(_mk([m.group(1)], t, ""))
+                        continue
+                    exprs.append(a)
+                new = []
+                for x in exprs:
+                    x = list(x)
+                    call = _mk(["crate", ":", ":", "log_value", "(", "&", "("], t, "")
+                    call[0].pre = t.pre if not new else " "
+                    for y in call[1:]: y.pre = ""
+                    x[0] = Tok(x[0].kind, x[0].text, "", line=x[0].line)
+                    new += call + x + _mk([")", ")", ";"], t, "")
+                    new[-3].pre = ""; new[-2].pre = ""; new[-1].pre = ""
+                out.extend(new); i = e + 2; n += 1; continue
+        out.append(t); i += 1
     return out, n
